@@ -32,7 +32,7 @@ func VerifHarness_C01_converge() {
 	tree.add("b3", "b2", nil)
 	tree.add("b4", "b3", nil)
 	tips := []string{"a2", "a3", "b3", "b4"}
-	w := &c01World{ctx: ctx, k: k, tree: tree, heard: map[string]bool{}}
+	w := &c01World{ctx: ctx, k: k, tree: tree, heard: map[string]bool{}, interleave: 1}
 	w.peer = vkNewPeer(tree, tips[verifrt.Choose("peer.initial-tip", 2)])
 
 	steps := []string{"s0", "s1", "s2", "s3", "s4"}
@@ -100,3 +100,85 @@ func VerifHarness_C01_converge() {
 	verifrt.Reach("C01.converge.done")
 }
 
+
+// VerifHarness_C01_race: the same world, but the free steps start from a node that has already
+// settled in sync on the peer's initial tip (so that the few free steps are spent on what happens
+// around a tip change, not on the initial download), and a peer message may be handled between
+// the block processor's pop of a block and its ProcessBlock call.
+func VerifHarness_C01_race() {
+	ctx := context.Background()
+	freeSteps, rounds := 4, 6
+	if verifrt.Thorough() {
+		freeSteps = 5
+	}
+	k, err := vkNewNode(ctx, nil)
+	verifrt.Assert(err == nil, "C01.kit.node-loads")
+	k.node.state.SetVersionReceived()
+	k.node.state.MarkConnected()
+	tree := vkNewTree(*k.node.blocks.LastHash())
+	tree.add("a1", "", nil)
+	tree.add("a2", "a1", []*wire.MsgTx{vkTx(1, []int{0}, true)})
+	tree.add("a3", "a2", nil)
+	tree.add("b2", "a1", []*wire.MsgTx{vkTx(2, []int{0}, true)})
+	tree.add("b3", "b2", nil)
+	tree.add("b4", "b3", nil)
+	tips := []string{"a2", "a3", "b3", "b4"}
+	w := &c01World{ctx: ctx, k: k, tree: tree, heard: map[string]bool{}}
+	w.peer = vkNewPeer(tree, []string{"a1", "a2"}[verifrt.Choose("peer.initial-tip", 2)])
+	w.settle(rounds)
+	verifrt.Assume(w.converged() && w.k.node.state.IsReady() && w.peer.sendHeaders)
+	verifrt.Reach("C01.race.settled-in-sync")
+	w.interleave = 1
+
+	steps := []string{"s0", "s1", "s2", "s3", "s4"}
+	for s := 0; s < freeSteps; s++ {
+		before := w.countInSync()
+		switch verifrt.Choose(steps[s]+".step", 4) {
+		case 0:
+			w.deliver()
+		case 1:
+			w.process()
+		case 2:
+			w.poll()
+		case 3: // the peer's best chain changes (extension or reorganisation) and is announced
+			tip := tips[verifrt.Choose(steps[s]+".new-tip", len(tips))]
+			verifrt.Assume(len(tree.chainTo(tip)) > len(w.peer.best))
+			w.peer.setBest(tip)
+			verifrt.Reach("C01.peer.best-chain-changed")
+		}
+		w.checkInSyncNotifications(before)
+		vkChainLinked(ctx, w.k.node, steps[s])
+	}
+	for r := 0; r < rounds; r++ {
+		before := w.countInSync()
+		progressed := false
+		for w.deliver() {
+			progressed = true
+			w.process()
+		}
+		w.process()
+		w.poll()
+		if len(w.peer.toNode) > 0 {
+			progressed = true
+		}
+		w.checkInSyncNotifications(before)
+		verifrt.Note("closure round %d: node height %d tip %s, peer best %v, queued %d, requests %d, ready %v", r, w.k.node.blocks.LastHeight(), w.tree.byHash[*w.k.node.blocks.LastHash()], w.peer.best, len(w.peer.toNode), w.k.node.state.TotalBlockRequestCount(), w.k.node.state.IsReady())
+		if !progressed && !w.converged() {
+			verifrt.Advance(11 * time.Minute)
+			if terr := w.k.node.state.CheckTimeouts(); terr != nil {
+				w.restart()
+				verifrt.Reach("C01.timeout.restart")
+			}
+		}
+	}
+	vkChainLinked(ctx, w.k.node, "closure")
+	best := w.peer.best
+	verifrt.Sig("closure", "tip")
+	verifrt.Assert(w.k.node.blocks.LastHeight() == len(best), "C01.converges.tip-height-equals-peers")
+	for i, name := range best {
+		h, herr := w.k.node.blocks.Hash(ctx, i+1)
+		verifrt.Sig("closure", "hash")
+		verifrt.Assert(herr == nil && h != nil && *h == tree.hashes[name], "C01.converges.every-height-equals-peers-best-chain")
+	}
+	verifrt.Reach("C01.race.done")
+}
